@@ -71,12 +71,12 @@ def toPathKey : PyVal → Option Path.Key
 def Step.param (s : Step) (useT2 : Bool) : Option PyVal :=
   if useT2 then s.p2.orElse (fun _ => s.p1) else s.p1.orElse (fun _ => s.p2)
 
-/-- `level.path(use_t2)`; `none` when some step is not representable (set items, odd keys) -/
+/-- `level.path(use_t2)`; `none` when some step is not representable (odd keys) -/
 def pathChars (steps : List Step) (useT2 : Bool) : Option (List Char) :=
   steps.foldl (fun acc s => do
     let cs ← acc
     match s.rel with
-    | .set => Option.none
+    | .set => pure (cs ++ [':'])      -- SetRelationship: param None, no param_repr_format ↦ ":"
     | _ =>
       let p ← s.param useT2
       let k ← toPathKey p
